@@ -364,9 +364,62 @@ func (c *Ctx) checkMuxerMode(env *condEnv, fd *ast.FuncDecl, HS, SRV string) {
 		c.Bad("muxer-mode", "Connection.setupConnection", fd.Pos(), "SetDiffusionMode is never called")
 		return
 	}
+	both := c.ConstInt("muxer", "DiffusionModeInitiatorAndResponder")
+	ini := c.ConstInt("muxer", "DiffusionModeInitiator")
+	rsp := c.ConstInt("muxer", "DiffusionModeResponder")
+	if hc, isCall := unparen(call.Args[0]).(*ast.CallExpr); isCall {
+		// the mode is computed by a same-package helper over boolean arguments: interpret the helper for every
+		// valuation of the caller's atoms
+		hf := calleeOf(p.TypesInfo, hc)
+		var hd *ast.FuncDecl
+		if hf != nil && hf.Pkg() == p.Types {
+			hd = c.DeclOpt(hf)
+		}
+		if hd == nil || hd.Body == nil {
+			c.Undecided("setupConnection: the SetDiffusionMode argument %s is not a helper of this package", types.ExprString(call.Args[0]))
+		}
+		henv := newCondEnv(p, hd)
+		sig := hf.Type().(*types.Signature)
+		base := env.pathCondition(call)
+		var fs []*Formula
+		for _, a := range hc.Args {
+			fs = append(fs, env.formula(a, 0))
+		}
+		atoms := sortedAtoms(append(fs, base, fAtom(HS), fAtom(SRV))...)
+		okAll, cex := true, ""
+		truthTable(atoms, func(e map[string]bool) {
+			if !base.Eval(e) {
+				return
+			}
+			pe := map[string]bool{}
+			for i := range hc.Args {
+				if i < sig.Params().Len() {
+					pe["local:"+sig.Params().At(i).Name()] = fs[i].Eval(e)
+				}
+			}
+			val, known := evalConstBody(henv, hd.Body.List, pe)
+			if !known {
+				c.Undecided("setupConnection: helper %s is not a decision over its boolean parameters", hf.Name())
+			}
+			want := ini
+			if e[HS] {
+				want = both
+			} else if e[SRV] {
+				want = rsp
+			}
+			if val != want {
+				okAll = false
+				if cex == "" {
+					cex = fmt.Sprintf("%s gives mode %d, expected %d", envString(e, atoms), val, want)
+				}
+			}
+		})
+		c.Check(okAll, "muxer-mode", "Connection.setupConnection", call.Pos(), "mode = Both iff duplex negotiated, else Responder iff server, else Initiator", "muxer diffusion mode table is wrong: "+cex)
+		return
+	}
 	id, ok := unparen(call.Args[0]).(*ast.Ident)
 	if !ok {
-		c.Bad("muxer-mode", "Connection.setupConnection", call.Pos(), "SetDiffusionMode argument %s is not a mode variable assigned by an if/else chain", types.ExprString(call.Args[0]))
+		c.Undecided("setupConnection: SetDiffusionMode argument %s is neither a mode variable assigned by an if/else chain nor a helper call", types.ExprString(call.Args[0]))
 		return
 	}
 	v, _ := p.TypesInfo.Uses[id].(*types.Var)
@@ -407,9 +460,6 @@ func (c *Ctx) checkMuxerMode(env *condEnv, fd *ast.FuncDecl, HS, SRV string) {
 		fs = append(fs, a.cond)
 	}
 	atoms := sortedAtoms(append(fs, base, fAtom(HS), fAtom(SRV))...)
-	both := c.ConstInt("muxer", "DiffusionModeInitiatorAndResponder")
-	ini := c.ConstInt("muxer", "DiffusionModeInitiator")
-	rsp := c.ConstInt("muxer", "DiffusionModeResponder")
 	okAll := true
 	cex := ""
 	truthTable(atoms, func(e map[string]bool) {
@@ -436,4 +486,95 @@ func (c *Ctx) checkMuxerMode(env *condEnv, fd *ast.FuncDecl, HS, SRV string) {
 		}
 	})
 	c.Check(okAll, "muxer-mode", "Connection.setupConnection", call.Pos(), "mode = Both iff duplex negotiated, else Responder iff server, else Initiator", "muxer diffusion mode table is wrong: "+cex)
+}
+
+// evalConstBody interprets a statement list made of if/else, tagless switch and "return <constant>" under a
+// valuation of its boolean atoms; known=false for anything else or when an atom is not valued.
+func evalConstBody(env *condEnv, stmts []ast.Stmt, val map[string]bool) (res int64, known bool) {
+	evalCond := func(x ast.Expr) (bool, bool) {
+		f := env.formula(x, 0)
+		as := map[string]bool{}
+		f.Atoms(as)
+		for a := range as {
+			if _, ok := val[a]; !ok {
+				return false, false
+			}
+		}
+		return f.Eval(val), true
+	}
+	var run func(stmts []ast.Stmt) (int64, bool, bool) // value, returned, ok
+	run = func(stmts []ast.Stmt) (int64, bool, bool) {
+		for _, s := range stmts {
+			switch st := s.(type) {
+			case *ast.ReturnStmt:
+				if len(st.Results) != 1 {
+					return 0, false, false
+				}
+				k, ok := constInt(env.p.TypesInfo, st.Results[0])
+				return k, true, ok
+			case *ast.BlockStmt:
+				if v, r, ok := run(st.List); !ok || r {
+					return v, r, ok
+				}
+			case *ast.IfStmt:
+				if st.Init != nil {
+					return 0, false, false
+				}
+				cv, ok := evalCond(st.Cond)
+				if !ok {
+					return 0, false, false
+				}
+				var body []ast.Stmt
+				if cv {
+					body = st.Body.List
+				} else if st.Else != nil {
+					body = []ast.Stmt{st.Else}
+				}
+				if v, r, ok := run(body); !ok || r {
+					return v, r, ok
+				}
+			case *ast.SwitchStmt:
+				if st.Tag != nil || st.Init != nil {
+					return 0, false, false
+				}
+				var chosen, dflt *ast.CaseClause
+			clauses:
+				for _, cl := range st.Body.List {
+					cc := cl.(*ast.CaseClause)
+					if cc.List == nil {
+						dflt = cc
+						continue
+					}
+					for _, x := range cc.List {
+						cv, ok := evalCond(x)
+						if !ok {
+							return 0, false, false
+						}
+						if cv {
+							chosen = cc
+							break clauses
+						}
+					}
+				}
+				if chosen == nil {
+					chosen = dflt
+				}
+				if chosen != nil {
+					for _, b := range chosen.Body {
+						if _, isFT := b.(*ast.BranchStmt); isFT {
+							return 0, false, false
+						}
+					}
+					if v, r, ok := run(chosen.Body); !ok || r {
+						return v, r, ok
+					}
+				}
+			default:
+				return 0, false, false
+			}
+		}
+		return 0, false, true
+	}
+	v, returned, ok := run(stmts)
+	return v, ok && returned
 }
